@@ -166,6 +166,36 @@ def metric_replay_obj(name, fn, x, y, ev):
                 got=got if got is not None else note, via="opfython.math.distance.DISTANCES[%r](x.copy(), y.copy())" % name)
 
 
+
+def pinned_points():
+    """(name, x, y, value, decimals|None) from the repository's own unit tests (one fixed point per metric)"""
+    import ast
+    path = os.path.join(REPO, "tests", "opfython", "math", "test_distance.py")
+    out = []
+    try:
+        tree = ast.parse(open(path).read())
+    except (OSError, SyntaxError):
+        return out
+    for fn in tree.body:
+        if not (isinstance(fn, ast.FunctionDef) and fn.name.startswith("test_") and fn.name.endswith("_distance")):
+            continue
+        name = fn.name[len("test_"):-len("_distance")]
+        vecs, val, dec = {}, None, None
+        try:
+            for st in fn.body:
+                if isinstance(st, ast.Assign) and isinstance(st.targets[0], ast.Name) and st.targets[0].id in ("x", "y"):
+                    vecs[st.targets[0].id] = [float(ast.literal_eval(e)) for e in st.value.args[0].elts]
+                elif isinstance(st, ast.Assert) and isinstance(st.test, ast.Compare):
+                    val = float(ast.literal_eval(st.test.comparators[0]))
+                    if isinstance(st.test.left, ast.Call):
+                        dec = int(ast.literal_eval(st.test.left.args[1]))
+            if val is not None and "x" in vecs and "y" in vecs:
+                out.append((name, vecs["x"], vecs["y"], val, dec))
+        except Exception:  # noqa
+            continue
+    return out
+
+
 # ----------------------------------------------------------------------------------------------
 
 def main(tier, seed):
@@ -335,6 +365,25 @@ def main(tier, seed):
                                               skipped_out_of_domain=stats["skipped_domain"],
                                               skipped_ill_conditioned=stats["skipped_ill_conditioned"],
                                               by_length=stats["by_length"], by_style=stats["by_style"])
+    # ---- the reference table against the repository's pinned unit-test values (guards the spec table itself)
+    pins, pin_bad = pinned_points(), []
+    fl = errnum.FloatOps()
+    for (name, x, y, val, dec) in pins:
+        if name not in metric_ref.TABLE:
+            pin_bad.append((name, "no closed form"))
+            continue
+        try:
+            v = float(metric_ref.reference(name, fl, x, y))
+        except ArithmeticError as ex:
+            pin_bad.append((name, str(ex)))
+            continue
+        ok = (round(v, dec) == val) if dec is not None else abs(v - val) <= 1e-9 * max(abs(val), 1e-12)
+        if not ok:
+            pin_bad.append((name, "closed form %r, pinned %r" % (v, val)))
+    if pins:
+        rep.obligation("reference closed forms reproduce the repository's pinned unit-test values (%d points)" % len(pins),
+                       not pin_bad, "%r" % pin_bad[:5])
+    rep.extra["pinned_points"] = len(pins)
     rep.extra["tolerance"] = dict(rtol=RTOL, error_bound_multiple=KB)
     rep.assumptions = [
         "theorems are over the reals; 'up to rounding' = the gap between the real-number evaluator and binary64 (DESIGN section 8); "
